@@ -8,7 +8,10 @@ compiled from /repo against the extracted model on exhaustive tiny domains + ran
 outcome kind, equal total cost, equal capacities after increaseCapacity, toAssignment(C++ plan) equal to
 the model's to_assignment of the same plan; the C++ plan itself goes through the PROVED checkers
 (feasibleb, check_plan = dual certificate, argmaxb) and through an independent oracle (lemon
-NetworkSimplex minimum cost).  Equality of the allocation matrices is only a statistic."""
+NetworkSimplex minimum cost).  Equality of the allocation matrices is only a statistic.
+Integer costs near the top of CostType = int (stream `bigcost`): costs <= INT_MAX/2 are treated like every other case (C07 proves
+that no int of the run overflows there); with a cost in (INT_MAX/2, INT_MAX-1] `sendingCost_[i] + cost` (transportation.cpp:453)
+can wrap, and a hang / infeasible / non-optimal result on such a case is finding F26 (known_findings.json), matched only there."""
 import json
 import re
 
@@ -16,11 +19,31 @@ from tools import common
 
 LEVEL = "proof"
 
-# (sinks, sources, max capacity, max demand, max cost): the domains of theorem c13_optimal_bounded
+# (sinks, sources, max capacity, max demand, max cost).  ENUM_QUICK = seven of the nine domains of theorem c13_optimal_bounded;
+# ENUM_THOROUGH adds the other two, (3,3,2,1,2) and (4,2,2,3,1), plus (3,3,2,2,2) and (4,3,1,1,1), which are NOT in the bounded theorem
+# (they are covered by the unbounded theorems only; here they are tie domains)
 ENUM_QUICK = [(2, 3, 3, 3, 2), (3, 2, 2, 2, 2), (3, 3, 2, 2, 1), (2, 2, 3, 3, 3), (1, 3, 9, 3, 2), (3, 1, 3, 9, 2), (2, 4, 3, 2, 1)]
 ENUM_THOROUGH = ENUM_QUICK + [(3, 3, 2, 1, 2), (4, 2, 2, 3, 1), (3, 3, 2, 2, 2), (4, 3, 1, 1, 1)]
 FMT = ("TP incr nsnk nsrc caps.. dems.. costs[snk][src]..  (TF: float costs num/den, see harness/transp.cpp); "
        "result: OK cost | caps after increaseCapacity | allocations row-major [snk][src] | toAssignment")
+HALF = 1073741823        # INT_MAX / 2: the largest integer cost for which c07_ssp_run_no_overflow proves that no int of run() overflows
+SKIP_LIMIT = 20          # more SKIPPED cases than this (harness: after 20 HANGs in one process) = the run did not evaluate its cases
+
+
+def over_half(line):
+    """integer-cost case with some cost above INT_MAX/2: the input class of finding F26"""
+    if not line.startswith("TP "):
+        return False
+    tag, incr, nsnk, nsrc, caps, dems, rest = parse_case(line)
+    return bool(rest) and max(rest) > HALF
+
+
+def f26(ctx, st, line, kind):
+    """a failure of the statement on a case of F26's input class; True = listed as known (counted, not a violation)"""
+    st["f26"][kind] = st["f26"].get(kind, 0) + 1
+    if len(st["f26_samples"]) < 3:
+        st["f26_samples"].append(line[:400])
+    return ctx.known_finding("F26")
 
 
 def _run(cmd, lines):
@@ -75,7 +98,15 @@ def incr_exact(caps0, dems, caps1, incr):
 
 def evaluate(ctx, lines, harness, driver, st):
     """runs C++ and model on the case lines; fills st; returns nothing"""
-    impl = _run([harness, "run"], lines)
+    # cases above INT_MAX/2 run in processes of their own with a short CPU limit (about one in eight does not return: F26), so that
+    # their hangs do not use up the hang budget (5 s x 3, 0.5 s x 17, then SKIPPED) of the processes that run C13's proper domain
+    ov = [over_half(l) for l in lines]
+    impl = [None] * len(lines)
+    for flag, cmd in ((False, [harness, "run"]), (True, [harness, "run", "short"])):
+        idx = [k for k in range(len(lines)) if ov[k] == flag]
+        if idx:
+            for k, o in zip(idx, _run(cmd, [lines[k] for k in idx])):
+                impl[k] = o
     mlines, cases = [], []
     for l, r in zip(lines, impl):
         tag, incr, nsnk, nsrc, caps, dems, rest = parse_case(l)
@@ -117,7 +148,12 @@ def evaluate(ctx, lines, harness, driver, st):
         if rk == "SKIPPED":
             st["skipped"] += 1
             continue
+        if ov[k]:
+            st["over_half"] += 1
+            st["over_half_outcomes"][rk] = st["over_half_outcomes"].get(rk, 0) + 1
         if o is None:
+            if ov[k] and rk == "HANG" and f26(ctx, st, l, "does not return"):
+                continue
             st["ofail"].append((l, r[:300], "no plan returned for a problem with positive data and demand <= capacity: " + r[:80]))
             continue
         ck = ckres.get(k, "")
@@ -139,9 +175,16 @@ def evaluate(ctx, lines, harness, driver, st):
                 o["cost"], orc, "" if cert else "; the proved certificate checker rejects it too")
         elif not amax:
             why = "toAssignment does not give each source a sink that receives most of it (proved checker argmaxb)"
+        kind = "infeasible plan" if why and why.startswith("plan infeasible") else "plan not of minimum cost" if why and why.startswith("plan not of minimum") else None
+        if why and kind and ov[k] and f26(ctx, st, l, kind):
+            continue
         if why:
             st["ofail"].append((l, r[:300], why))
             continue
+        if ov[k]:
+            st["over_half_optimal"] += 1
+        elif tag == "TP" and costs and max(costs) >= HALF - 1000000:
+            st["near_half"] += 1
         if not incr_exact(caps, dems, o["caps"], incr):
             # C13 only needs capacity >= demand afterwards; the exact shares are the model's (c13_increase_capacity_post)
             st["mism"].append((l, r[:300], m[:300], "increaseCapacity does not add floor/ceil shares of the missing capacity: %s -> %s for total demand %d"
@@ -229,11 +272,13 @@ def gen_cases(ctx, harness):
         lines += g
     seeds = [ctx.seed] if ctx.quick else [ctx.seed, ctx.seed + 1000, ctx.seed + 2000]
     nrand, nbig, nflt, nhuge = (16000, 48, 4000, 4000) if ctx.quick else (300000, 900, 60000, 90000)
+    nbigcost = 1600 if ctx.quick else 36000
     for s in seeds:
         lines += common.harness_gen(harness, ["rand", s, nrand // len(seeds)])
         lines += common.harness_gen(harness, ["flt", s, nflt // len(seeds)])
         lines += common.harness_gen(harness, ["big", s, nbig // len(seeds)])
         lines += common.harness_gen(harness, ["huge", s, nhuge // len(seeds)])
+        lines += common.harness_gen(harness, ["bigcost", s, nbigcost // len(seeds)])
     # a few problems check() must refuse (outside C13; only the outcome kind is compared)
     lines += ["TP 0 2 2 3 0 1 1 0 1 1 0", "TP 0 2 2 3 3 1 -1 0 1 1 0", "TP 1 1 1 0 5 7", "TF 1 2 1 4 4 0 1 3 5"]
     return lines, ncorpus, nenum, doms
@@ -242,6 +287,7 @@ def gen_cases(ctx, harness):
 def new_stats():
     return {"n": 0, "skipped": 0, "kinds": {}, "outcomes": {}, "outside": 0, "mism": [], "ofail": [], "certified": 0, "same_matrix": 0,
             "same_assign": 0, "nontriv": set(), "split": 0, "balanced": 0, "max_nsrc": 0, "nsnk_hist": {},
+            "f26": {}, "f26_samples": [], "over_half": 0, "over_half_outcomes": {}, "over_half_optimal": 0, "near_half": 0,
             "max_quantity": 0, "share_ge_2p31": 0, "share_ge_2p32": 0, "share_eq_2p31": 0, "split_source_with_share_ge_2p31": 0}
 
 
@@ -269,6 +315,12 @@ def run(ctx):
             ctx.violation("proof obligations of Properties_C13.v do not check", {"broken": "Properties_C13.v", "detail": proof}, found_input=False)
         if vmbad:
             ctx.violation("extracted model disagrees with vm_compute", {"broken": "extraction cross-check", "detail": vmbad[:3]}, found_input=False)
+    if st["skipped"] > SKIP_LIMIT:
+        # the harness stops running cases in a process after 20 of them did not return: those cases were NOT evaluated
+        ctx.violation("%d of %d cases were skipped after repeated hangs of the solver (limit %d): the correspondence run is incomplete"
+                      % (st["skipped"], st["n"], SKIP_LIMIT),
+                      {"broken": "relational correspondence of coq/Ssp.v with TransportationProblem (cases not evaluated)",
+                       "skipped": st["skipped"], "implementation_outcomes": st["outcomes"]}, found_input=False)
 
     cov = dict(proof)
     cov.update({
@@ -283,7 +335,12 @@ def run(ctx):
                 "multiple of G, (b) 1..3 independent blocks of one source spilling over 1..4 private sinks with main shares at 2^31, 2^31+-1, "
                 "2^32, 2^32+-1, 2^32+10, 2^33+5, 3*2^31, 3*2^32+5, 2^34-1 or (1..64)*2^31 with low words 0 / ffffffff / 80000000 / random, remainders "
                 "0/3/20/whole small sinks of 5, 7, 20, 35, 1000, 2^31-1, 2^31 (e.g. 2^32+30 split 2^32+10 / 20; a share of exactly 2^31), sinks shuffled; "
-                "costs <= 1000 there so that every total is < 2^62; float stream: costs num/den as float distances, the "
+                "costs <= 1000 there so that every total is < 2^62; bigcost stream (integer-cost constructor, 1..6 sinks, 1..10 sources, demands <= 20): "
+                "even lines have every cost <= INT_MAX/2 = 1073741823 (all within 3 of it / 40 %% small + rest within 10 or 10^6 of it / uniform / "
+                "per-sink offsets 0, INT_MAX/4, INT_MAX/2-2 + noise / two-valued with INT_MAX/2 / 30 %% zeros + rest INT_MAX/2-3..INT_MAX/2) and are "
+                "judged like every other case; odd lines have the same shapes below INT_MAX-1 = 2147483646 with at least one cost above "
+                "INT_MAX/2 (INT_MAX itself is updateTree's sentinel, outside [0, INT_MAX)): the C++ result is judged by the statement oracle and a "
+                "hang / infeasible / non-optimal result there is finding F26; float stream: costs num/den as float distances, the "
                 "C++'s own scaled integer costs() are read back and given to the model. non-trivial = capacities bind: the optimum exceeds the cost "
                 "of sending every source to its cheapest sink; distinct = distinct case lines" % (doms,),
         "exhaustive": True, "exhaustive_cases": nenum, "corpus_cases": ncorpus,
@@ -300,8 +357,16 @@ def run(ctx):
         "model_vs_impl_differences": len(st["mism"]),
         "impl_outputs_violating_statement": len(st["ofail"]),
         "cases_skipped_after_repeated_hangs": st["skipped"],
+        "cases_skipped_limit": SKIP_LIMIT,
+        "evaluation_incomplete": st["skipped"] > 0,
+        "integer_costs_within_10^6_below_INT_MAX/2_handled_like_the_model": st["near_half"],
+        "integer_costs_above_INT_MAX/2": {"cases": st["over_half"], "implementation_outcomes": st["over_half_outcomes"],
+                                          "optimal_and_tied_to_the_model": st["over_half_optimal"], "matched_to_F26": st["f26"],
+                                          "samples_matched_to_F26": st["f26_samples"]},
         "vm_compute_crosschecked_cases": nvm,
-        "clauses": {"feasible + minimal cost": "raw algorithm, all inputs of the domain, no size bound: every returned plan is feasible and of minimum "
+        "clauses": {"feasible + minimal cost": "raw algorithm = the ideal-Z model with its one tie-breaking rule, all inputs of the domain (integer costs in "
+                                               "[0, INT_MAX); the C++ is overflow-free for costs <= INT_MAX/2 and float costs by C07, refuted above: F26), "
+                                               "no size bound: every returned plan is feasible and of minimum "
                                                "cost (c13_ssp_optimal) and a plan IS returned: every loop ends within the budgets of Ssp.v, no assertion, no empty "
                                                "top() (c13_ssp_returns; updateTree's budget big_fuel proved sufficient, the earlier cubic budget refuted by "
                                                "c13_tree_fuel_insufficient, whose exponential family is in the corpus); checker proved sound "
@@ -314,8 +379,15 @@ def run(ctx):
         "model Ssp.v is hand-written; tied to transportation.cpp relationally (equal cost, certified C++ plan) on the cases of this run",
         "termination of updateTree is proved with a pseudo-polynomial round budget (big_fuel, the one Ssp.v uses); its worst case is exponential in "
         "the number of sinks, in the model and in the C++ (family of c13_tree_fuel_insufficient, K <= 12 in the corpus): running time is not part of C13",
-        "machine-integer overflow (CostType = int) is outside this model (ideal Z); costsFromIntegers (float scaling) is not modelled: the model "
-        "receives the C++'s scaled costs",
+        "machine-integer overflow (CostType = int) is outside this model (ideal Z): the unbounded theorems are about the model for costs in "
+        "[0, INT_MAX); that no int of the C++ run overflows is proved in C07 for costs <= INT_MAX/2 = 1073741823 (c07_ssp_run_no_overflow, sharp: "
+        "c07_ssp_run_half_sharp) and for the float constructor's scaled costs (c07_float_problem_cost_dom, c07_ssp_run_no_overflow_scaled); above "
+        "INT_MAX/2 the integer-cost constructor is refuted by finding F26 (bigcost stream)",
+        "costsFromIntegers (float scaling) is not modelled here: the model receives the C++'s scaled costs, so 'minimum cost' of a float problem "
+        "is with respect to those scaled integers (scaling: C07); DensityLegalizer::reoptimize is not called: the flt stream emulates its call "
+        "sequence (float constructor, increaseCapacity, solve, toAssignment)",
+        "the C++ plan differs from the model's plan on about 10 % of the cases (priority-queue ties): there the C++'s optimality rests on the "
+        "proved certificate checker run on that plan (check_plan) and on the lemon optimum, not on the theorems about ssp",
         "problems with total demand > total capacity are outside C13 and are not generated"])
 
 
@@ -330,5 +402,6 @@ def replay(ctx, path):
     print("impl :", impl[0][:2000])
     print("model:", model[0][:2000])
     print("statement violated:", [w for _, _, w in st["ofail"]])
+    print("matched to known finding F26 (integer cost above INT_MAX/2):", st["f26"])
     print("correspondence    :", [w for _, _, _, w in st["mism"]])
     return 1 if (st["ofail"] or st["mism"]) else 0
